@@ -33,12 +33,19 @@ EdgeCombos == {TimeStr(7, 32, 0) \o f \o o : f \in {<<>>, <<46, 53>>}, o \in Off
               \cup {DateStr(1979, 5, 27) \o o : o \in OffStrs}
               \cup {DateStr(1979, 5, 27) \o <<dl>> \o o : dl \in {84, 116, 32}, o \in OffStrs}
               \cup {TimeStr(7, 32, 0) \o <<dl>> \o DateStr(1979, 5, 27) : dl \in {84, 32}}
-Edges == EdgeDates \cup EdgeTimes \cup EdgeFull \cup EdgeCombos
+\* a digit of another script (fullwidth, Arabic-Indic, Tamil) in every digit position of a date, a time and a fraction
+ReplaceAt(str, j, c) == [x \in 1..Len(str) |-> IF x = j THEN c ELSE str[x]]
+ForeignDigits == LET base == DateStr(2000, 1, 1) \o <<84>> \o TimeStr(7, 32, 0) \o <<46, 53>> IN
+                 {ReplaceAt(base, j, c) : j \in {x \in 1..Len(base) : base[x] >= 48 /\ base[x] <= 57}, c \in {65298, 1634, 3046}}
+                 \cup {ReplaceAt(DateStr(2000, 1, 1), j, c) : j \in {1, 4, 6, 10}, c \in {65298, 1634, 3046}}
+                 \cup {ReplaceAt(TimeStr(7, 32, 0), j, c) : j \in {1, 5, 8}, c \in {65298, 1634, 3046}}
+Edges == EdgeDates \cup EdgeTimes \cup EdgeFull \cup EdgeCombos \cup ForeignDigits
          \cup {<<49, 57, 55, 57, 45, 53, 45, 50, 55>>, <<49, 57, 55, 57, 48, 53, 50, 55>>, <<55, 58, 51, 50, 58, 48, 48>>, <<48, 55, 58, 51, 50>>,
                <<49, 57, 55, 57, 45, 48, 53, 45, 50, 55, 84>>, <<49, 57, 55, 57, 45, 48, 53, 45, 50, 55, 32>>,
                <<49, 57, 55, 57, 45, 48, 53, 45, 50, 55, 84, 48, 55, 58, 51, 50>>, <<>>}
 
-Alphabet == {48, 49, 50, 51, 53, 54, 57, 45, 58, 46, 43, 84, 116, 90, 122, 32, 44}
+\* (the last three: digits of other scripts - fullwidth 2, Arabic-Indic 2, Tamil 0 - which are "numeric" but not ASCII)
+Alphabet == {48, 49, 50, 51, 53, 54, 57, 45, 58, 46, 43, 84, 116, 90, 122, 32, 44, 65298, 1634, 3046}
 
 VARIABLES lvl, text, kind, valid, nth
 vars == <<lvl, text, kind, valid, nth>>
